@@ -1,0 +1,49 @@
+//go:build verif
+
+// Package verifhook provides observation hooks for external verification
+// harnesses.  Without the "verif" build tag every hook is a no-op.
+package verifhook
+
+import "sync/atomic"
+
+type pointHandler struct{ f func(name string) }
+type announceHandler struct {
+	f func(hash []byte, ipv6 bool, port uint16)
+}
+
+var pointH atomic.Pointer[pointHandler]
+var announceH atomic.Pointer[announceHandler]
+
+// SetPoint installs the handler called at every yield point (nil removes it).
+func SetPoint(f func(name string)) {
+	if f == nil {
+		pointH.Store(nil)
+		return
+	}
+	pointH.Store(&pointHandler{f})
+}
+
+// SetAnnounce installs the handler called before every DHT announce.
+func SetAnnounce(f func(hash []byte, ipv6 bool, port uint16)) {
+	if f == nil {
+		announceH.Store(nil)
+		return
+	}
+	announceH.Store(&announceHandler{f})
+}
+
+// Point marks a named yield point.
+func Point(name string) {
+	h := pointH.Load()
+	if h != nil {
+		h.f(name)
+	}
+}
+
+// Announce reports a DHT announce.
+func Announce(hash []byte, ipv6 bool, port uint16) {
+	h := announceH.Load()
+	if h != nil {
+		h.f(hash, ipv6, port)
+	}
+}
